@@ -50,6 +50,17 @@ fn main() {
             }
             println!("OK replay passes");
         }
+        "shrink" => {
+            // evv shrink <Cxx> <vec replay file>: greedy deletion shrinking, prints the smaller case
+            let path = std::path::Path::new(&args[3]);
+            if let Some((_p, _e, case)) = evv::ctx::load_replay::<evv::vec_types::VecCase>(path) {
+                let small = evv::engine_vec::shrink(&case, prop);
+                println!("{}", serde_json::to_string(&small).unwrap());
+            } else {
+                eprintln!("not a vec replay");
+                std::process::exit(2);
+            }
+        }
         _ => usage(),
     }
 }
